@@ -51,12 +51,24 @@ CONSTRAINTS = [
     'exists <stmt> s in start: (= (str.len s) 12)',
     'count(start, "<stmt>", "3")',
     '(exists <num> n in start: (= n "7")) and (forall <num> m in start: (= (str.len m) 1))',
+    '(forall <num> n in start: (str.in_re n (re.+ (str.to_re "11")))) and (forall <digit> d in start: (= d "1"))',
+    ('forall <assgn> a="{<var> l} := {<var> r}" in start: (= l r)', "<assgn>"),
+    ('exists <rhs> r="{<digit> d}{<num> n}" in start: (= d "7")', "<rhs>"),
+    ('forall <stmt> s="{<assgn> a} ; <stmt>" in start: (str.prefixof "b" a)', "<stmt>"),
+    ('(str.in_re start (re.+ (str.to_re "aa"))) and (forall <char> c in start: (= c "a"))', "<start>", "word"),
+    ('(= (str.len start) 4) and (exists <char> c in start: (= c "b"))', "<start>", "word"),
     # signed / zero-padded number format without a plain "0": only the exception contract is checked for these (Z3 itself
     # evaluates str.to.int("+0") to -1, the reference semantics cannot judge them)
     'exists <pnum> p in start: (= (str.to.int p) 0)',
 ]
-C02_ONLY = {16}
-PARSED = [parse_isla(c, G, STANDARD_STRUCTURAL_PREDICATES, STANDARD_SEMANTIC_PREDICATES) for c in CONSTRAINTS]
+C02_ONLY = {22}
+# an entry may be (constraint, start_symbol): the solver is then asked for trees rooted at that nonterminal
+WORD = {"<start>": ["<word>"], "<word>": ["<char><word>", "<char>"], "<char>": ["a", "b", "c"]}
+GRAMMAR_OF = [(WORD if (isinstance(c, tuple) and len(c) > 2 and c[2] == "word") else G) for c in CONSTRAINTS]
+MANY = [isinstance(c, tuple) for c in CONSTRAINTS]      # cheap constraints: more solutions are examined
+START = [c[1] if isinstance(c, tuple) else "<start>" for c in CONSTRAINTS]
+CONSTRAINTS = [c[0] if isinstance(c, tuple) else c for c in CONSTRAINTS]
+PARSED = [parse_isla(c, GRAMMAR_OF[i], STANDARD_STRUCTURAL_PREDICATES, STANDARD_SEMANTIC_PREDICATES) for i, c in enumerate(CONSTRAINTS)]
 LIMITS = [1, 3, 10]
 NSOL = int(os.environ.get("VERIF_NSOL", "5"))
 CALL_LIMIT_S = int(os.environ.get("VERIF_CALL_LIMIT", "25"))
@@ -91,18 +103,20 @@ def _on_alarm(signum, frame):
 def mk_solver(v, timeout=None):
     ci, fi, si, opt, uniq, methods, seed, unsat = v
     random.seed(seed)
-    return S.ISLaSolver(G, CONSTRAINTS[ci], max_number_free_instantiations=LIMITS[fi], max_number_smt_instantiations=LIMITS[si],
+    return S.ISLaSolver(GRAMMAR_OF[ci], CONSTRAINTS[ci], max_number_free_instantiations=LIMITS[fi], max_number_smt_instantiations=LIMITS[si],
                         enable_optimized_z3_queries=bool(opt), enforce_unique_trees_in_queue=bool(uniq), tree_insertion_methods=methods,
-                        activate_unsat_support=bool(unsat), timeout_seconds=timeout)
+                        activate_unsat_support=bool(unsat), timeout_seconds=timeout,
+                        **({} if START[ci] == "<start>" else {"start_symbol": START[ci]}))
 
 
 def check_solution(ci, t, what):
     if t.is_open() or any(n.children is None for _, n in refsem.nodes(t)):
         raise AssertionError("%s returned the open tree %r" % (what, str(t)))
-    if t.value != "<start>" or not vlib.valid_tree(G, t, allow_open=False):
-        raise AssertionError("%s returned %r, which is not a derivation tree of the grammar rooted at <start>" % (what, str(t)))
+    G = GRAMMAR_OF[ci]
+    if t.value != START[ci] or not vlib.valid_tree(G, t, allow_open=False):
+        raise AssertionError("%s returned %r, which is not a derivation tree of the grammar rooted at %s" % (what, str(t), START[ci]))
     try:
-        vlib.parse_tree(G, str(t))
+        vlib.parse_tree(G, str(t), start=START[ci])
     except SyntaxError:
         raise AssertionError("%s returned %r, which is not in the grammar's language" % (what, str(t)))
     try:
@@ -169,7 +183,8 @@ def _run_inner(v) -> bool:
     except Exception as e:
         raise AssertionError("creating the solver for constraint #%d raised %s: %s" % (ci, type(e).__name__, str(e)[:100]))
     ended = None
-    for k in range(NSOL + 2):
+    nsol = max(NSOL, 10) if MANY[ci] else NSOL
+    for k in range(nsol + 2):
         r = call(solver)
         what = "call %d of %s" % (k + 1, what0)
         if r[0] == "slow":
@@ -185,11 +200,11 @@ def _run_inner(v) -> bool:
                 raise AssertionError("%s: after %s was raised, a later call gave %s" % (what, ended, r[0]))
             continue
         if r[0] == "tree":
-            if k < NSOL and MODE != "c02" and ci not in C02_ONLY:
+            if k < nsol and MODE != "c02" and ci not in C02_ONLY:
                 check_solution(ci, r[1], what)
         else:
             ended = r[0]
-            if k >= NSOL or MODE == "c01":
+            if k >= nsol or MODE == "c01":
                 break
     return True
 
